@@ -25,63 +25,72 @@ OPQ = {"bits.utils.is_point", "bits.base58.is_base58check", "bits.base58.base58c
 
 
 def check_dispatch(ctx, oid="C08.1"):
-    """Decision table of scriptpubkey over the address classes (shared with C16: recipient / change scripts)."""
+    """Decision table of scriptpubkey over the address classes (shared with C16: recipient / change scripts). The classifiers
+    and decoders are scripted (what kind of string it is, what it decodes to); the script builders are inlined, so the result
+    is compared byte for byte with the standard template, whichever helper functions produce it."""
     R = ctx.R
     fi = ctx.fn(SU + "scriptpubkey")
-    ev = ctx.evaluator(opaque=OPQ)
-    data = P("data", tm.BYTES)
-    isp = tm.truth(tm.app("bits.utils.is_point", [data]))
-    isb = tm.truth(tm.app("bits.base58.is_base58check", [data]))
-    iss = tm.truth(tm.app("bits.utils.is_segwit_addr", [data], ty=tm.BOOL))
-    iss2 = tm.app("bits.utils.is_segwit_addr", [data], ty=tm.BOOL)
+    opq = {"bits.utils.is_point", "bits.base58.is_base58check", "bits.base58.base58check_decode", "bits.utils.is_segwit_addr", "bits.utils.decode_segwit_addr"}
+    ev = ctx.evaluator(opaque=opq)
+    pname = fi.params()[0]
+    data = P(pname, tm.BYTES)
+
+    def classes(dv):
+        return (tm.truth(tm.app("bits.utils.is_point", [dv])), tm.truth(tm.app("bits.base58.is_base58check", [dv])),
+                tm.truth(tm.app("bits.utils.is_segwit_addr", [dv], ty=tm.BOOL)), tm.app("bits.utils.is_segwit_addr", [dv], ty=tm.BOOL))
+    # class: public key (33 / 65 bytes of any content the classifier accepts)
+    for L in (33, 65):
+        key = tm.sized("pubkey", L)
+        isp, isb, iss, iss2 = classes(key)
+        ev.assumptions = {isp: True}
+        kind, val = rules.decided_outcome(ev.run(fi, {pname: key}))
+        want = tm.cat([bytes([L]), key, b"\xac"])
+        R.check(oid, "DECISION-TABLE", fi, "valid %d-byte SEC1 key -> P2PK: push(key) OP_CHECKSIG" % L, kind == "return" and tm.veq(val, want),
+                "a valid %d-byte public key maps to %s %s" % (L, kind, tm.show(val)[:120]))
+    # class: base58check, all version bytes, 20-byte payload
+    isp, isb, iss, iss2 = classes(data)
     D = tm.app("bits.base58.base58check_decode", [data], ty=tm.BYTES)
-    # class: public key
-    ev.assumptions = {isp: True}
-    kind, val = rules.outcome(ev.run(fi))
-    R.check(oid, "DECISION-TABLE", fi, "valid SEC1 key -> P2PK", kind == "return" and tm.veq(val, tm.app(SU + "p2pk_script_pubkey", [data], ty=tm.BYTES)),
-            "a valid public key maps to %s" % tm.show(val)[:120])
-    # class: base58check, all version bytes
+    h = tm.sized("hash160", 20)
     ev.assumptions = {isp: False, isb: True}
-    payload = tm.slc(D, 1, None)
     wrong = []
-    for v in [b""] + [bytes([i]) for i in range(256)]:
-        ev.bind = {tm.slc(D, None, 1): v}
-        kind, val = rules.outcome(ev.run(fi))
-        if v in (b"\x00", b"\x6f"):
-            ok = kind == "return" and tm.veq(val, tm.app(SU + "p2pkh_script_pubkey", [payload], ty=tm.BYTES))
-        elif v in (b"\x05", b"\xc4"):
-            ok = kind == "return" and tm.veq(val, tm.app(SU + "p2sh_script_pubkey", [payload], ty=tm.BYTES))
+    for v in [None] + list(range(256)):
+        ev.bind = {D: tm.cat([bytes([v]), h]) if v is not None else b""}
+        kind, val = rules.decided_outcome(ev.run(fi))
+        if v in (0x00, 0x6f):
+            ok = kind == "return" and tm.veq(val, tm.cat([bytes.fromhex("76a914"), h, bytes.fromhex("88ac")]))
+        elif v in (0x05, 0xc4):
+            ok = kind == "return" and tm.veq(val, tm.cat([bytes.fromhex("a914"), h, bytes.fromhex("87")]))
         else:
             ok = kind == "raise"
         if not ok:
-            wrong.append((v, kind, val))
+            wrong.append(("%02x" % v if v is not None else "", kind, val))
     ev.bind = {}
-    R.check(oid, "DECISION-TABLE", fi, "Base58Check version byte table (257 classes incl. empty payload)", not wrong,
-            "version byte %s is mapped to %s %s" % (wrong[0][0].hex() or "(empty payload)", wrong[0][1], tm.show(wrong[0][2])[:120]) if wrong else "",
-            example=("a checksum-valid Base58Check string with version %s" % (wrong[0][0].hex() or "none (empty payload)")) if wrong else None)
+    R.check(oid, "DECISION-TABLE", fi, "Base58Check version byte table (257 classes incl. empty payload): 00/6f -> DUP HASH160 push(h) EQUALVERIFY CHECKSIG, 05/c4 -> HASH160 push(h) EQUAL, else error", not wrong,
+            "version byte %s is mapped to %s %s" % (wrong[0][0] or "(empty payload)", wrong[0][1], tm.show(wrong[0][2])[:120]) if wrong else "",
+            example=("a checksum-valid Base58Check string with version %s" % (wrong[0][0] or "none (empty payload)")) if wrong else None)
     R.floor(oid, 257, 257, "base58_version_classes")
-    # class: segwit, program lengths
+    # class: segwit, witness versions x program lengths
     seg = tm.app("bits.utils.decode_segwit_addr", [data, True], ty=tm.TUPLE)
-    wv, prog = T("proj", (seg, 1)), T("proj", (seg, 2))
-    hrp = T("proj", (seg, 0))
-    n = 0
+    vers = range(17) if ctx.thorough else (0, 1, 2, 15, 16)
     for L in (range(2, 41) if ctx.thorough else (2, 3, 19, 20, 21, 31, 32, 33, 39, 40)):
-        ev.assumptions = {isp: False, isb: False, iss: True, iss2: True, tm.cmp("in", hrp, (b"bc", b"tb", b"bcrt")): True}
-        ev.bind = {tm.length(prog): L}
-        kind, val = rules.outcome(ev.run(fi))
-        w1 = tm.app(SU + "p2wpkh_script_pubkey", [prog, wv], ty=tm.BYTES)
-        w2 = tm.app(SU + "p2wsh_script_pubkey", [prog, wv], ty=tm.BYTES)
-        ok = kind == "return" and (tm.veq(val, w1) or tm.veq(val, w2))
-        R.check(oid, "DECISION-TABLE", fi, "valid segwit address, program length %d -> OP_w push(program)" % L, ok,
-                "a valid segwit address with a %d-byte program maps to %s %s" % (L, kind, tm.show(val)[:120]),
+        bad = []
+        for wv in vers:
+            for hrp in (b"bc", b"tb", b"bcrt"):
+                prog = tm.sized("program", L)
+                ev.assumptions = {isp: False, isb: False, iss: True, iss2: True}
+                ev.bind = {seg: (hrp, wv, prog)}
+                kind, val = rules.decided_outcome(ev.run(fi))
+                want = tm.cat([bytes([0x00 if wv == 0 else 0x50 + wv, L]), prog])
+                if not (kind == "return" and tm.veq(val, want)):
+                    bad.append((wv, hrp, kind, val))
+        R.check(oid, "DECISION-TABLE", fi, "valid segwit address, program length %d, versions %s -> OP_v push(program)" % (L, "0..16" if ctx.thorough else "0,1,2,15,16"), not bad,
+                "a valid version-%s %s address with a %d-byte program maps to %s %s" % ((bad[0][0], bad[0][1].decode(), L, bad[0][2], tm.show(bad[0][3])[:120]) if bad else ("", "", L, "", "")),
                 example="a valid version-1..16 address with a %d-byte program" % L)
-        n += 1
     ev.bind = {}
     ev.assumptions = {isp: False, isb: False, iss: False, iss2: False}
-    kind, val = rules.outcome(ev.run(fi))
+    kind, val = rules.decided_outcome(ev.run(fi))
     R.check(oid, "DECISION-TABLE", fi, "none of key / Base58Check / segwit -> error", kind == "raise", "unclassifiable input maps to %s %s" % (kind, tm.show(val)[:100]))
     ev.assumptions = {}
-    # the witness builders used by the dispatcher emit OP_w push(program) for every length (checked on the real builders)
 
 
 def run(ctx):
